@@ -35,6 +35,9 @@ impl Oracle for C04 {
     fn prop(&self) -> &'static str {
         "C04"
     }
+    fn params(&self) -> serde_json::Value {
+        json!({"limit": self.limit})
+    }
     fn on_state(&self, w: &mut World, _mon: &mut Mon, _hist: &[Ev], out: &mut Out) {
         let anchor = w.anchor();
         if !w.refm.has(&anchor) {
